@@ -307,6 +307,18 @@ def run(ctx):
                 ctx.ob("C04.R3g", inst, A.releases(a.order) and A.acquires(a.fail_order), a.node.where,
                        "retire list head CAS must be acq_rel (publishes node->next, takes ownership of the old list)")
 
+        # the clock is sampled after the head whose stamp it is compared with: expire() computes a 16-bit difference that is
+        # only meaningful when now >= stamp(head)
+        for e_ in L.call_nodes(ig, name="expire", live=live):
+            hs = [ig.ev_of(o) for o in ig.origins_at(ig.rarg(e_, 0), e_)]
+            ts = [ig.ev_of(o) for o in ig.origins_at(ig.rarg(e_, 1), e_)]
+            hs = [h for h in hs if h is not None and h.ev.get("name") in ("load", "exchange")]
+            ts = [t for t in ts if t is not None and t.ev.get("name") == "get_current_timestamp"]
+            ctx.ob("C04.R4c", "%s@%s" % (inst, e_.line), bool(hs) and bool(ts) and all(ig.dominated_by(t, [h]) for t in ts for h in hs),
+                   e_.where,
+                   "the timestamp handed to expire() must be read after the list head it is compared with was loaded: a clock "
+                   "sample older than the head's stamp makes the 16-bit difference wrap to ~65535 units and a list retired an "
+                   "instant ago is freed while snapshots still use it", site="%s@clock-after-head" % inst)
         # the retired node is linked to the head value the CAS expects, on every attempt
         if fn.name == "retire":
             for a in hops:
@@ -382,6 +394,82 @@ def run(ctx):
         ok = bool(inits) and all(ig.dominated_by(r, inits) for r in rets)
         ctx.ob("C04.R5a", L.short(fn), ok, fn.loc, "a block can be returned before its elements are constructed/zeroed")
 
+    # -------------------------------------------------- R6 destroyed exactly once when the vector dies
+    def loops_of(fn):
+        """[(start const, bound pstr)] of the counting loops of a function"""
+        out = []
+        ig_ = IG(fn, inline=lambda a, b, c: False)
+        for b in fn.blocks.values():
+            if b.get("term") in ("ForStmt", "WhileStmt") and "cond" in b:
+                c = L.cmp_parts(b["cond"])
+                if not c or c[0] != "<":
+                    continue
+                iv = strip_cast(c[1])
+                start = None
+                if isinstance(iv, dict) and iv.get("k") == "l":
+                    for n_, rhs, how in ig_.local_defs(ig_.frames[0], iv["id"]):
+                        if how == "decl":
+                            start = const_val(rhs)
+                bd = strip_cast(c[2])
+                if isinstance(bd, dict) and bd.get("k") == "e":
+                    ce = fn.events.get(bd["id"])
+                    bd_s = "%s()" % (ce.get("name") if ce else "?")
+                else:
+                    bd_s = pstr(bd)
+                out.append((start, bd_s))
+        return out
+    n6 = 0
+    for fn in fb.find(pred=lambda f: is_vec(f) and f.kind == "dtor" and f.has_cfg()):
+        n6 += 1
+        ig = IG(fn, inline=lambda a, b, c: False)
+        live = ig.live_nodes()
+        dblk = list(L.call_nodes(ig, name="delete_block", live=live))
+        dtab = list(L.call_nodes(ig, name="delete_block_table", live=live))
+        lp = loops_of(fn)
+        ok = len(dblk) == 1 and len(dtab) == 1 and (0, "block_table->size") in lp
+        if ok:
+            a0 = strip_cast(ig.rarg(dblk[0], 0))
+            tab = strip_cast(ig.rarg(dtab[0], 0))
+            from_cur = any(ig.ev_of(o) is not None and ig.ev_of(o).ev.get("name") == "load" and
+                           L.deep_find(ig, ig.rthis(ig.ev_of(o)), L.field_pred(name="_block_table")) is not None
+                           for o in ig.origins(tab))
+            ok = isinstance(a0, dict) and a0.get("k") == "idx" and "blocks" in pstr(a0) and pstr(tab) in pstr(a0) and from_cur and \
+                ig.path_exists(dblk[0], dtab[0]) and not ig.path_exists(dtab[0], dblk[0])
+        ctx.ob("C04.R6a", L.short(fn), ok, fn.loc,
+               "the destructor must free every block of the current table (indices 0 .. size) and then the table itself: a block "
+               "that is skipped is never destroyed, a table freed first is read after free")
+    creators = dict((f.record, f) for f in cbs)
+    for fn in fb.find(pred=lambda f: is_vec(f) and f.name == "delete_block" and f.has_cfg()):
+        cr = creators.get(fn.record)
+        if cr is None:
+            continue
+        n6 += 1
+        igd = IG(fn, inline=lambda a, b, c: False)
+        igc = IG(cr, inline=lambda a, b, c: False)
+        news = [n for n in igc.ev_nodes() if n.ev["e"] == "call" and n.ev.get("name") == "operator new"]
+        dels = [n for n in igd.ev_nodes() if n.ev["e"] == "call" and n.ev.get("name") == "operator delete"]
+        ok = len(news) == 1 and len(dels) == 1
+        why = "expected one operator new / operator delete"
+        if ok:
+            def src(ig_, d):
+                out = set()
+                for o in ig_.origins(d):
+                    n_ = ig_.ev_of(o)
+                    out.add(n_.ev.get("name") if n_ is not None else str(const_val(o)))
+                return out
+            if src(igc, igc.rarg(news[0], 0)) != src(igd, igd.rarg(dels[0], 1)):
+                ok, why = False, "the size passed to operator delete is not computed like the size passed to operator new"
+            elif src(igc, igc.rarg(news[0], 1)) != src(igd, igd.rarg(dels[0], 2)):
+                ok, why = False, "alignment passed to operator delete (%s) differs from the one passed to operator new (%s)" % (
+                    sorted(src(igd, igd.rarg(dels[0], 2))), sorted(src(igc, igc.rarg(news[0], 1))))
+            else:
+                lc, ld = loops_of(cr), loops_of(fn)
+                dt = [ev for _, ev in fn.all_events() if ev["e"] == "call" and (ev.get("name") or "").startswith("~")]
+                if dt and set(ld) != set(lc):
+                    ok, why = False, "elements are destroyed over %s but constructed over %s" % (ld, lc)
+        ctx.ob("C04.R6b", L.short(fn), ok, fn.loc,
+               "a block must be destroyed and freed the way it was allocated and constructed: %s" % why)
+    ctx.floor("C04.R6", n6, 6, "destructor / delete_block instances")
 
 SWEEP = ["concurrent/test_vector.cpp",
          "concurrent/test_thread_local.cpp",
